@@ -158,7 +158,15 @@ type blockState struct {
 	sent      int
 }
 
+// keptMsg: a forwarded message and what it said when it was handed over (the stages downstream hold the
+// same pointer for as long as the change is in a queue or an open batch)
+type keptMsg struct {
+	m            *replication.WalMessage
+	op, txn, key string
+}
+
 type world struct {
+	kept     []keptMsg
 	term     context.Context // the shared termination context of the case
 	mu       sync.Mutex      // every fake callback holds it; the runner takes it only to snapshot a hung case
 	dead     bool            // the runner gave up on this case: callbacks do nothing any more
@@ -190,6 +198,7 @@ func (w *world) drain() {
 				continue
 			}
 			w.log = append(w.log, Obs{K: "out", Op: m.Pr.Operation, Txn: m.Pr.Transaction, Key: m.TimeBasedKey, Wal: m.WalStart})
+			w.kept = append(w.kept, keptMsg{m, m.Pr.Operation, m.Pr.Transaction, m.TimeBasedKey})
 		default:
 			return
 		}
@@ -520,6 +529,11 @@ func runImpl(c Case) (log []Obs, unreliable bool, hungBlocked bool) {
 	}
 	w.drain()
 	w.log = append(w.log, Obs{K: "stop"})
+	for _, k := range w.kept {
+		if k.m.Pr.Operation != k.op || k.m.Pr.Transaction != k.txn || k.m.TimeBasedKey != k.key {
+			w.log = append(w.log, Obs{K: "rewritten", Op: k.op, Txn: k.txn, Key: k.m.Pr.Transaction + "/" + k.m.TimeBasedKey, Wal: k.m.WalStart})
+		}
+	}
 	// (tooSlow classifies reply-requested keepalives; blocked cases have none after the prologue)
 	return w.log, w.tooSlow && !c.Blocked, false
 }
@@ -741,6 +755,8 @@ func caseGallina(c Case, log []Obs) (string, inferStats) {
 			obs = append(obs, "CSend "+core.GN(o.Lsn))
 		case "recv":
 			obs = append(obs, "CRecv")
+		case "rewritten":
+			// not an output of the client: a check of the harness on messages already handed over
 		case "out":
 			obs = append(obs, fmt.Sprintf("COut %s %s %s %s", core.GStr(o.Op), core.GStr(o.Txn), core.GStr(o.Key), core.GN(o.Wal)))
 		case "stop":
@@ -889,6 +905,8 @@ func monitor(c Case, log []Obs) []core.Violation {
 			if o.Fresh && k < 0 && o.Lsn != 0 {
 				add("C03", "initial-start-position-not-server-chosen", fmt.Sprintf("first START_REPLICATION at %d", o.Lsn))
 			}
+		case "rewritten":
+			add("C07", "forwarded-message-rewritten-after-hand-over", fmt.Sprintf("the %s at %d was forwarded as transaction %q; at the end of the run the same message says transaction/key %q: what a later message was stamped with was written into a message the downstream stages still hold", o.Op, o.Wal, o.Txn, o.Key))
 		case "close":
 			if o.BeforeSignal {
 				add("C17", "connection-closed-in-shutdown-before-the-termination-signal", fmt.Sprintf("log position %d: Replicator.shutdown closes the replication connection while the shared termination signal is not yet raised: a close that blocks leaves every other stage running behind a dead reader", i))
